@@ -340,6 +340,18 @@ def handleEnvObs (h : EHist) (toks : List String) : EHist × List String × List
                  | _ => [])
               if !fields.isEmpty then
                 out := out ++ [s!"K {h.id} {h.opIdx} {",".intercalate fields.eraseDups} {tail}"]; kDead := true
+                -- The reference engine's observation after a step is the model's: every asset of every simulation is the
+                -- reference engine run on its share of the operations (`simulation_asset_is_reference_engine`, proved for
+                -- valid fault-free histories; the profiles below generate only valid operations). So a book observation
+                -- that differs from the model's after a step differs from the reference engine's: an `R` finding with
+                -- this history as the failing input.
+                let bookFields := (((mo.zip ln.books).flatMap fun (m, i) => diffObs m i)).eraseDups
+                let validProfile := ["plain", "toggle", "overfull"].contains h.profile
+                match op with
+                | .step =>
+                  if validProfile && !bookFields.isEmpty then
+                    out := out ++ [s!"R {h.id} {h.opIdx} {",".intercalate bookFields} {tail}"]
+                | _ => pure ()
           -- audits
           let mut aud : List String := []
           if ln.res != .panic then
